@@ -7,7 +7,7 @@
     [C17_named_tabulated]: no class constraint is left unnamed or outside the tables (F-C17b was repaired in
     /repo 763e32e). *)
 From Coq Require Import List QArith Bool Arith String.
-From PV Require Import Model.Dict Model.Terms Model.ClassGen Proofs.ClassGenLemmas Proofs.C17Lemmas.
+From PV Require Import Model.Dict Model.Terms Model.ClassGen Model.ClassDump Proofs.ClassGenLemmas Proofs.C17Lemmas.
 From PV Require Import Gen.Classes.
 Import ListNotations.
 Local Open Scope nat_scope.
@@ -78,7 +78,11 @@ Theorem C17_block_tables :
 Proof. exact plan_block_tables. Qed.
 
 (** get_class_constraints_duals(): same shape as the table of constraints; each cell is the multiplier of the
-    object in the corresponding cell, 0 for the scalar 0. *)
+    object in the corresponding cell, 0 for the scalar 0.  [dual] is an ARBITRARY assignment of rationals to the
+    class constraints -- negative values included (equality conditions have sign-free multipliers, solvers return
+    slightly negative ones for inactive inequalities): the accessor is the identity on what is stored, it neither
+    clips nor rounds.  The same quantification over [dual] holds in [C17_pairs_table], [C17_singles_table],
+    [C17_block_tables]. *)
 Theorem C17_duals_cell :
   forall dual t i j,
     cell (duals_table dual t) i j
@@ -160,7 +164,7 @@ Example C17_linear_adjoint_regression :
 Proof. exact linear_adjoint_regression. Qed.
 
 (** * non-vacuity: a convex function with three unnamed samples; the 3 x 3 table has 0 on the diagonal and the
-    six constraints, in row-major order, elsewhere; the dual table reads the tags back *)
+    six constraints, in row-major order, elsewhere; the dual table reads the (signed) tags back *)
 Definition ex_s (k : nat) : sample :=
   mkSample [(k, 1%Q)] [((k + 3)%nat, 1%Q)] [(KF k, 1%Q)] None k (10 + k) (20 + k) [].
 Definition ex_state : fstate :=
@@ -175,8 +179,8 @@ Example C17_example :
   ex_plan = [] ++ Pairs LPoints LPoints "convexity" ex_f false :: [] /\
   get_list ex_state LPoints <> [] /\
   (exists t, g_tables out = [t] /\
-     duals_table (fun p => inject_Z (Z.of_nat p)) t
-     = [[0; 0; 1]; [2; 0; 3]; [4; 5; 0]]%Q /\
+     duals_table Model.ClassDump.dual_tag t
+     = [[0; (-1) # 4; 3 # 4]; [(-5) # 4; 0; 7 # 4]; [(-9) # 4; 11 # 4; 0]]%Q /\
      t_index t = ["Point_0"; "Point_1"; "Point_2"]%string) /\
   map c_name (g_cons out)
   = [Some "IC_f_convexity(Point_0, Point_1)"; Some "IC_f_convexity(Point_0, Point_2)";
